@@ -372,7 +372,7 @@ theorem stepRaw_RG {s : SeqState} (hd : DevOk s.dev) (hi : SeqInv s) (op : Op) :
           · apply RG_store
             have hmem : cfg ∈ s.dev.dmms := List.mem_of_getElem? hcfg
             exact addChannel_SG hi (freshChan_inv (hd.2 cfg hmem))
-  | target qs n => exact RG_store _ (RG_targetCore hi _ _)
+  | target qs n => exact RG_store _ (RG_orRollback hi (RG_targetCore hi _ _))
   | add p n proto =>
     simp only [stepRaw]
     apply RG_store; apply RG_markNonEmpty
@@ -388,10 +388,11 @@ theorem stepRaw_RG {s : SeqState} (hd : DevOk s.dev) (hi : SeqInv s) (op : Op) :
     apply RG_store; apply RG_markNonEmpty
     repeat' split
     all_goals first | exact RG_fail hi _ | exact RG_addCore hi _ _ _ _
-  | delay d n atRest => exact RG_store _ (RG_delayChecked hi _ _ _)
+  | delay d n atRest => exact RG_store _ (RG_orRollback hi (RG_delayChecked hi _ _ _))
   | align chs atRest =>
     simp only [stepRaw]
     apply RG_store
+    apply RG_orRollback hi
     repeat' split
     all_goals first | exact RG_fail hi _ | exact RG_done (SG.rfl' hi) | exact RG_alignLoop hi _ _
   | phaseShift phi qs b => exact RG_store _ (RG_phaseShift hi _ _ _)
@@ -407,7 +408,8 @@ theorem stepRaw_RG {s : SeqState} (hd : DevOk s.dev) (hi : SeqInv s) (op : Op) :
           · exact RG_fail hi _
           · split
             · exact RG_fail hi _
-            · unfold enableEomCommit
+            · apply RG_orRollback hi
+              unfold enableEomCommit
               apply RG_bind (RG_withChan hi (fun c hc => enableEom_inv hc))
               intro s1 hi1 _
               apply RG_store
@@ -424,7 +426,8 @@ theorem stepRaw_RG {s : SeqState} (hd : DevOk s.dev) (hi : SeqInv s) (op : Op) :
         · exact RG_fail hi _
         · split
           · exact RG_fail hi _
-          · unfold modifyEomCommit
+          · apply RG_orRollback hi
+            unfold modifyEomCommit
             apply RG_bind (RG_withChan hi (fun c hc => disableEom_inv hc))
             intro s1 hi1 hd1
             split
@@ -439,6 +442,7 @@ theorem stepRaw_RG {s : SeqState} (hd : DevOk s.dev) (hi : SeqInv s) (op : Op) :
   | disableEom n corr =>
     simp only [stepRaw]
     apply RG_store
+    apply RG_orRollback hi
     split
     · exact RG_fail hi _
     · split
